@@ -22,6 +22,7 @@ DIMS = {
     "b": ("Bb", ["b1", "b0", "b2"], None),
     "s": ("Single", ["only"], "str"),
     "n": ("Number", [7, 9], None),
+    "m": ("Cohort", ["pre", 1990, 1995], None),          # text and numbers in one (untyped) dimension
 }
 
 
@@ -312,7 +313,8 @@ def case_df_history(prog, letters):
 FAULTS = ["none", "drop-first", "drop-middle", "drop-last", "duplicate", "unknown-item", "nan-value", "missing-column", "missing-single-item-column",
           "two-odd-value-columns", "unknown+drop", "duplicate+drop", "nan+unknown", "duplicate-after-type-conversion",
           "unknown-item-first-dimension", "unknown-item-early", "unknown-item-in-single-item-column",
-          "repeated-row-labels", "nan+repeated-row-labels", "label-as-text-in-untyped-dimension"]
+          "repeated-row-labels", "nan+repeated-row-labels", "label-as-text-in-untyped-dimension",
+          "infinite-value", "infinite+drop", "infinite+nan", "duplicate-with-other-value", "row-relabelled-onto-existing-combination"]
 
 
 def long_frame(dw, arr, letters):
@@ -328,8 +330,15 @@ def apply_fault(dw, df: PD.Frame, letters, fault):
     ci = [cols.index(n) for n in names]
     vi = cols.index("value")
 
+    def plain(x):
+        # a label that went through a NumPy array is a number of the symbolic domain: the same label as the Python number
+        if isinstance(x, Rat) and x.is_const():
+            c = x.const()
+            return int(c) if c.denominator == 1 else float(c)
+        return x
+
     def key(r):
-        return tuple(r[i] for i in ci)
+        return tuple(plain(r[i]) for i in ci)
     orig = list(rows)
     for f in fault.split("+"):
         if f in ("drop-first", "drop-middle", "drop-last", "drop"):
@@ -346,6 +355,23 @@ def apply_fault(dw, df: PD.Frame, letters, fault):
             del rows[k]
         elif f == "duplicate":
             rows.insert(len(rows) // 2, list(rows[0]))
+            note["dup"] = True
+        elif f == "duplicate-with-other-value":
+            # the same label combination twice with DIFFERENT numbers: still a duplicated combination
+            r = list(rows[0])
+            r[vi] = Rat.sym("other_value")
+            rows.insert(len(rows) // 2 + 1, r)
+            note["dup"] = True
+        elif f == "row-relabelled-onto-existing-combination":
+            # the row count is right, but one combination is absent and another one appears twice (with different numbers)
+            if len(rows) < 2:
+                return None
+            k = len(rows) - 1
+            removed.append(key(rows[k]))
+            r = list(rows[k])
+            for i in ci:
+                r[i] = rows[0][i]
+            rows[k] = r
             note["dup"] = True
         elif f == "duplicate-after-type-conversion":
             # the same label once as int and once as str: equal after the declared type conversion
@@ -382,6 +408,14 @@ def apply_fault(dw, df: PD.Frame, letters, fault):
         elif f == "nan-value" or f == "nan":
             nan_keys.append(key(rows[1 if len(rows) > 1 else 0]))
             rows[1 if len(rows) > 1 else 0][vi] = PD.NaN
+        elif f in ("infinite-value", "infinite"):
+            # a PRESENT entry that happens to be infinite (pandas reads "inf" from CSV text): not missing, not empty -> placed as it is
+            k = len(rows) - 1
+            if k < 2 and "+" in fault:
+                return None
+            rows[k] = list(rows[k])
+            rows[k][vi] = Rat.sym("inf") if len(rows) % 2 else -Rat.sym("inf")
+            note.setdefault("changed", {})[key(rows[k])] = rows[k][vi]
         elif f == "missing-column":
             multi = [n for n, l in zip(names, letters) if len(DIMS[l][1]) > 1]
             if not multi:
@@ -481,6 +515,7 @@ def case_faults(prog, letters, target="from_df"):
                 out.append((inp, ok, msg, qual))
             else:
                 want = dict(src)
+                want.update(note.get("changed", {}))
                 for k in removed + nan_keys:
                     want[k] = rat(0)
                 if kind != "ok":
